@@ -3,10 +3,9 @@ CONSTANTS
   HeadSz <- HeadSize
   Denote <- DenoteMC
   Limits <- MCLimits
-  HBMode = "on"
+  HBMode = "off"
   Table = "GPOS"
-  MaxL = 3
-  TwoSubs = FALSE
+  Shapes = {"2x1", "1x2"}
 INIT MInit
 NEXT RNext
 CONSTRAINTS Bounded NoStuckLig GenEmit Stat
